@@ -18,7 +18,9 @@ type wholeCase struct {
 	name    string
 	imports [][2]string // alias, path
 	args    []string    // the command line, when it matters
-	rules   []struct {
+	// anyWarnings: the grammar may be one the generator warns about (random grammars); the file must compile all the same
+	anyWarnings bool
+	rules       []struct {
 		n string
 		e *gexpr
 	}
@@ -94,6 +96,12 @@ func (b *gb) emitX(e *gexpr) {
 	case "state":
 		b.fm.call("AddStateChange", e.S)
 		return
+	case "range":
+		r := []rune(e.S)
+		b.fm.call("AddCharacter", string(r[0]))
+		b.fm.call("AddCharacter", string(r[1]))
+		b.fm.call("AddRange")
+		return
 	}
 	b.emit(e)
 }
@@ -106,6 +114,11 @@ func checkWholeCompile(c *Check, r *Repo) {
 	}
 	ti := loadTemplate(r)
 	cases := wholeCases()
+	nRand := 40
+	if c.Tier == "thorough" {
+		nRand = 2500
+	}
+	cases = append(cases, randomWholeCases(c.Seed+23, nRand)...)
 	var allOpts []modelOpts
 	for i := 0; i < 8; i++ {
 		allOpts = append(allOpts, modelOpts{Inline: i&1 != 0, Switch: i&2 != 0, Ast: i&4 == 0})
@@ -154,7 +167,7 @@ func checkWholeCompile(c *Check, r *Repo) {
 					out[i].und = em.Err
 					return
 				}
-				if len(em.Warnings) > 0 {
+				if len(em.Warnings) > 0 && !w.anyWarnings {
 					out[i].und = "the grammar is not clean: " + strings.Join(em.Warnings, "; ")
 					return
 				}
@@ -211,7 +224,7 @@ func checkWholeCompile(c *Check, r *Repo) {
 // emitTree is emit with the extra operators of this file at every level.
 func (b *gb) emitTree(e *gexpr) {
 	switch e.Op {
-	case "state":
+	case "state", "range":
 		b.emitX(e)
 		return
 	case "seq", "alt":
